@@ -26,7 +26,7 @@ const SIMULATED: &[&str] = &["network (frames of octet strings between roles)", 
 static C01: Check = Check {
     property: "C01",
     level: "exploration",
-    rule: "one run = 1-3 issuance sessions (suite, key material, key_info, header, L messages drawn per run) interleaved on an issuer and a holder thread, with neutral faults only (absent<->empty toggles, swap of equal messages, dup+drop, frame duplication, issuer/holder crash-restart with reload from octets/coordinates/JSON); a case = one (statement, delivered octets) pair that reached sign/verify; distinct = distinct SHA-256 of that content; in 1 run of 6: a free-running BURST (several nodes released into the library at the same time, outcomes judged by oracles that hold for any interleaving) of 3-5 keygen+sign+verify calls with L in {3..130} (4 KiB messages sometimes), each signature re-verified and re-signed serially afterwards",
+    rule: "one run = 1-3 issuance sessions (suite, key material, key_info, header, L messages drawn per run) interleaved on an issuer and a holder thread, with neutral faults only (absent<->empty toggles, swap of equal messages, dup+drop, frame duplication, issuer/holder crash-restart with reload from octets/coordinates/JSON); a case = one (statement, delivered octets) pair that reached sign/verify; distinct = distinct SHA-256 of that content; in 1 run of 6: a free-running BURST (several nodes released into the library at the same time, outcomes judged by oracles that hold for any interleaving) of 3-5 keygen+sign+verify calls with L in {3..130} (4 KiB messages sometimes), each signature re-verified and re-signed serially afterwards; SIZE SWEEP: every run adds one honest flow whose list length is the run index modulo 300 (1200 thorough), so a batch walks through every length 0..299 for both suites; long lists carry repeated messages in 1 run of 3; the process runs with a log sink at Trace level",
     quick_runs: 600,
     thorough_runs: 2000,
     run: scen_sig::run_c01,
@@ -53,7 +53,7 @@ static C02: Check = Check {
 static C03: Check = Check {
     property: "C03",
     level: "exploration",
-    rule: "one run = 1-2 presentation sessions Issuer -> Holder -> Verifier; the Holder's proof_gen runs the production randomness path on its own thread fed by the node's deterministic entropy stream (with injected EINTR / short reads), possibly after a holder restart and with tick preemption inside create_generators / messages_to_scalar / calculate_random_scalars; disclosure sets: all 2^L subsets in rotation for L<=6, none/all/random for larger L; header, ph in {absent, empty, bytes}; neutral faults only on the Presentation frame (absent<->empty toggles, JSON codec, frame duplication, verifier restart); oracle MustAccept + proof length == 272+32U; a case = one delivered presentation; in 1 run of 8: a free-running BURST (several nodes released into the library at the same time, outcomes judged by oracles that hold for any interleaving) of 3-6 issuances followed by 2-7 back-to-back presentations per holder (L in {1,2,5,40,66,90}), every proof verified and round-tripped serially afterwards",
+    rule: "one run = 1-2 presentation sessions Issuer -> Holder -> Verifier; the Holder's proof_gen runs the production randomness path on its own thread fed by the node's deterministic entropy stream (with injected EINTR / short reads), possibly after a holder restart and with tick preemption inside create_generators / messages_to_scalar / calculate_random_scalars; disclosure sets: all 2^L subsets in rotation for L<=6, none/all/random for larger L; header, ph in {absent, empty, bytes}; neutral faults only on the Presentation frame (absent<->empty toggles, JSON codec, frame duplication, verifier restart); oracle MustAccept + proof length == 272+32U; a case = one delivered presentation; in 1 run of 8: a free-running BURST (several nodes released into the library at the same time, outcomes judged by oracles that hold for any interleaving) of 3-6 issuances followed by 2-7 back-to-back presentations per holder (L in {1,2,5,40,66,90}), every proof verified and round-tripped serially afterwards; SIZE SWEEP: every run adds one honest flow whose list length is the run index modulo 300 (1200 thorough), so a batch walks through every length 0..299 for both suites; long lists carry repeated messages in 1 run of 3; the process runs with a log sink at Trace level; JSON is decoded through serde_json::from_str, from_reader or from_value (picked by the length of the text)",
     quick_runs: 500,
     thorough_runs: 2000,
     run: scen_proof::run_c03,
@@ -94,7 +94,7 @@ static C08: Check = Check {
 static C09: Check = Check {
     property: "C09",
     level: "fault_enumeration",
-    rule: "per artefact type {PublicKey, SecretKey, Signature, BlindSignature, PoKSignature, ZKPoK, Commitment, BlindFactor} and ciphersuite, around an honest encoding: (part 0) store round trips across a node restart in every codec (octets, JSON, pk coordinates), extension by 1..=64 octets x 3 content classes, truncation to every length; (part 1) every single-bit flip; (part 2) every non-canonical / forbidden substitution in every point and scalar slot (scalar+r, +2r, =r, =2^256-1, =0, =r-1; identity, identity+sort flag, infinity flag with non-zero x, compression flag cleared, infinity flag on a point, non-subgroup point, off-curve x, x>=p, sort flag flipped); run index -> (suite, type, part): 48 consecutive runs enumerate everything; oracle: accepted => re-encoding equals the delivered octets, forbidden class => Err; a case = one delivered octet string that reached a decoder (wrong lengths for fixed-size array parameters are excluded by the type and not counted); the coordinate form x || y fed to the octet decoder (a foreign encoding of the same key), and forbidden coordinates (a curve point outside the subgroup, a point off the curve, infinity)",
+    rule: "per artefact type {PublicKey, SecretKey, Signature, BlindSignature, PoKSignature, ZKPoK, Commitment, BlindFactor} and ciphersuite, around an honest encoding: (part 0) store round trips across a node restart in every codec (octets, JSON, pk coordinates), extension by 1..=64 octets x 3 content classes, truncation to every length; (part 1) every single-bit flip; (part 2) every non-canonical / forbidden substitution in every point and scalar slot (scalar+r, +2r, =r, =2^256-1, =0, =r-1; identity, identity+sort flag, infinity flag with non-zero x, compression flag cleared, infinity flag on a point, non-subgroup point, off-curve x, x>=p, sort flag flipped); run index -> (suite, type, part): 48 consecutive runs enumerate everything; oracle: accepted => re-encoding equals the delivered octets, forbidden class => Err; a case = one delivered octet string that reached a decoder (wrong lengths for fixed-size array parameters are excluded by the type and not counted); the coordinate form x || y fed to the octet decoder (a foreign encoding of the same key), and forbidden coordinates (a curve point outside the subgroup, a point off the curve, infinity); the library's key store (KeyPair::write_keypair_to_file) on a path with each of four histories (nothing there, a longer older document, a shorter one, another key pair written just before), a crash of the role, and the reload of the file; JSON decoded through from_str / from_reader / from_value",
     quick_runs: 48,
     thorough_runs: 192,
     run: scen_codec::run_c09,
@@ -108,7 +108,7 @@ static C09: Check = Check {
 static C05: Check = Check {
     property: "C05",
     level: "exploration",
-    rule: "one run = one blind issuance + presentation session Holder(commit) -> Issuer(blind_sign) -> Holder(verify_blind_sign, blind_proof_gen) -> Verifier(blind_proof_verify); run indexes 0..642 enumerate, for both suites, all 321 (L, M, disclosure pair) combinations with L + M <= 5 (every (L,M) in the triangle x all 2^L x 2^M disclosure pairs); later runs draw shapes up to (40, 40); issuance without commitment included; production randomness through the entropy seam with EINTR / short reads; holder crash-restart between commit and receipt (blind factor survives as 32 octets) and before presenting; neutral faults only; a case = one delivered frame; in 1 run of 8: a free-running BURST (several nodes released into the library at the same time, outcomes judged by oracles that hold for any interleaving) of 3-6 blind issuances (M up to 70 committed messages) followed by 2-7 back-to-back blind presentations per holder, verified serially afterwards",
+    rule: "one run = one blind issuance + presentation session Holder(commit) -> Issuer(blind_sign) -> Holder(verify_blind_sign, blind_proof_gen) -> Verifier(blind_proof_verify); run indexes 0..642 enumerate, for both suites, all 321 (L, M, disclosure pair) combinations with L + M <= 5 (every (L,M) in the triangle x all 2^L x 2^M disclosure pairs); later runs draw shapes up to (40, 40); issuance without commitment included; production randomness through the entropy seam with EINTR / short reads; holder crash-restart between commit and receipt (blind factor survives as 32 octets) and before presenting; neutral faults only; a case = one delivered frame; in 1 run of 8: a free-running BURST (several nodes released into the library at the same time, outcomes judged by oracles that hold for any interleaving) of 3-6 blind issuances (M up to 70 committed messages) followed by 2-7 back-to-back blind presentations per holder, verified serially afterwards; SIZE SWEEP: every run adds one honest flow whose list length is the run index modulo 300 (1200 thorough), so a batch walks through every length 0..299 for both suites; long lists carry repeated messages in 1 run of 3; the process runs with a log sink at Trace level",
     quick_runs: 700,
     thorough_runs: 2600,
     run: scen_blind::run_c05,
@@ -135,7 +135,7 @@ static C06: Check = Check {
 static C07: Check = Check {
     property: "C07",
     level: "exploration",
-    rule: "one run = one credential (plain and blind) and K in 2..6 holder nodes, each on its own OS thread with its own entropy stream, each performing 2..6 generations (proof_gen, blind_proof_gen, commit, KeyPair::random + BlindFactor::random) on the SAME inputs, the first generation of every holder being the same operation, interleaved by the scheduler with tick preemption, holder crash-restart (fresh thread_rng) and EINTR / short reads in between; the wire monitor holds every witness and, over the whole history of the run, requires: recomputed blindings e~, m~_j, s~, cm~_i non-zero, >= 2^160 and pairwise distinct; responses, Abar, Bbar, D, commitments, blind factors, random keys never repeated; no 32/48-octet window of a proof or commitment equal to a hidden scalar, e, A, the blind factor; a case = one transcript; in 1 run of 4: a free-running BURST (several nodes released into the library at the same time, outcomes judged by oracles that hold for any interleaving) of 3-6 holders each doing 2-6 rounds of KeyPair::random + BlindFactor::random + commit + proof_gen + blind_proof_gen on the same inputs, all fed to the same history monitor",
+    rule: "one run = one credential (plain and blind) and K in 2..6 holder nodes, each on its own OS thread with its own entropy stream, each performing 2..6 generations (proof_gen, blind_proof_gen, commit, KeyPair::random + BlindFactor::random) on the SAME inputs, the first generation of every holder being the same operation, interleaved by the scheduler with tick preemption, holder crash-restart (fresh thread_rng) and EINTR / short reads in between; the wire monitor holds every witness and, over the whole history of the run, requires: recomputed blindings e~, m~_j, s~, cm~_i non-zero, >= 2^160 and pairwise distinct; responses, Abar, Bbar, D, commitments, blind factors, random keys never repeated; no 32/48-octet window of a proof or commitment equal to a hidden scalar, e, A, the blind factor; a case = one transcript; in 1 run of 4: a free-running BURST (several nodes released into the library at the same time, outcomes judged by oracles that hold for any interleaving) of 3-6 holders each doing 2-6 rounds of KeyPair::random + BlindFactor::random + commit + proof_gen + blind_proof_gen on the same inputs, all fed to the same history monitor; 1 run in 16 is a VOLUME run: 150000 batches of random scalars and 500000 random blind factors (400000 / 2000000 thorough) drawn on four threads at once, none zero, no two equal",
     quick_runs: 300,
     thorough_runs: 1500,
     run: scen_fresh::run_c07,
@@ -143,13 +143,13 @@ static C07: Check = Check {
     real: REAL,
     simulated: SIMULATED,
     exhaustive_after: None,
-    probes: &["proof_with_more_than_32_random_scalars", "commitment_with_more_than_32_random_scalars", "commit_with_absent_list", "concurrent_burst"],
+    probes: &["proof_with_more_than_32_random_scalars", "commitment_with_more_than_32_random_scalars", "commit_with_absent_list", "concurrent_burst", "volume_draws"],
 };
 
 static C10: Check = Check {
     property: "C10",
     level: "exploration",
-    rule: "one run = 12..31 deterministic operations (KeyGen/SkToPk across the ikm, key_info and DST size limits; create_generators for counts 0..=64, 255..257 (1000+ thorough) and plain / blind / BLIND_ / empty / arbitrary api_ids; messages_to_scalars; hash_to_scalar across the DST limit; Sign with L up to 257 and headers across 255/256; BlindSign on a fixed request and without one; accept/reject decisions of verify, proof_verify, blind_sign(request), verify_blind_sign, blind_proof_verify on honest and singly mutated artefacts) spread over 1, 2-4, 5-8 or 16 nodes and interleaved by the scheduler with tick preemption; plus, in every run, create_generators for one count of the complete range 0..=64 (0..=1100 thorough) per suite, walking through the whole range with the run index; each result is compared with the executable spec model (octets and Ok/Err) and, for a sample, with the same operation alone on a fresh thread; the model must first reproduce all 110 fixture vectors; a case = one operation; in 1 run of 6 a burst of concurrent Generators::create on two fresh api_ids (one request of 100-220 overlapping 36 shorter ones) compared with the model during and after; in 1 run of 4 the MANY-KEYS WINDOW: a proof verification (2-41 messages) parked by forced preemption at phase:proof_verify_init and starved while 8-16 one-message proofs under other issuer keys are verified on three other nodes (the attacker's key last in 3 of 4), for an honest long proof (model accepts) and for a proof made from a signature computed with the attacker's secret over the issuer's domain (model rejects); Sign also under headers of 1023 .. 6000 octets, with one message of 1 .. 10 KiB, and for 32 / 33 / 64 / 65 / 128 / 129 / 258 messages",
+    rule: "one run = 12..31 deterministic operations (KeyGen/SkToPk across the ikm, key_info and DST size limits; create_generators for counts 0..=64, 255..257 (1000+ thorough) and plain / blind / BLIND_ / empty / arbitrary api_ids; messages_to_scalars; hash_to_scalar across the DST limit; Sign with L up to 257 and headers across 255/256; BlindSign on a fixed request and without one; accept/reject decisions of verify, proof_verify, blind_sign(request), verify_blind_sign, blind_proof_verify on honest and singly mutated artefacts) spread over 1, 2-4, 5-8 or 16 nodes and interleaved by the scheduler with tick preemption; plus, in every run, create_generators for one count of the complete range 0..=64 (0..=1100 thorough) per suite, walking through the whole range with the run index; each result is compared with the executable spec model (octets and Ok/Err) and, for a sample, with the same operation alone on a fresh thread; the model must first reproduce all 110 fixture vectors; a case = one operation; in 1 run of 6 a burst of concurrent Generators::create on two fresh api_ids (one request of 100-220 overlapping 36 shorter ones) compared with the model during and after; in 1 run of 4 the MANY-KEYS WINDOW: a proof verification (2-41 messages) parked by forced preemption at phase:proof_verify_init and starved while 8-16 one-message proofs under other issuer keys are verified on three other nodes (the attacker's key last in 3 of 4), for an honest long proof (model accepts) and for a proof made from a signature computed with the attacker's secret over the issuer's domain (model rejects); Sign also under headers of 1023 .. 6000 octets, with one message of 1 .. 10 KiB, and for 32 / 33 / 64 / 65 / 128 / 129 / 258 messages; Sign and BlindSign also under a public key that is not the secret key's; in 1 run of 8 a COLD START: this engine re-executed as a child process in which 1, 2, 8 or 16 threads leave a barrier into the first library calls of the process (KeyGen + Sign + Verify + create_generators, or KeyPair::random + commit), every deterministic result compared with the model",
     quick_runs: 160,
     thorough_runs: 1500,
     run: scen_conform::run_c10,
@@ -157,7 +157,7 @@ static C10: Check = Check {
     real: REAL,
     simulated: SIMULATED,
     exhaustive_after: None,
-    probes: &["long_verification_parked_while_many_keys_are_verified"],
+    probes: &["long_verification_parked_while_many_keys_are_verified", "cold_start_of_a_child_process"],
 };
 static C11: Check = Check {
     property: "C11",
